@@ -3,7 +3,7 @@
    Notation: travelled s a b = sum of s_(a+1) .. s_b, where s_k is the path length (resp. rotation
    angle) of the step into pose k; miss D delta i k = |(D_k - D_i) - delta| on accumulated distances. *)
 From Coq Require Import Reals List Sorted.
-From Evo Require Import Num Linalg Filters FiltersProofs.
+From Evo Require Import Num Linalg Filters FiltersProofs FiltersCheck.
 Import ListNotations.
 Local Open Scope R_scope.
 
@@ -233,6 +233,42 @@ Theorem C10_chain_is_unique :
   chain_spec delta s from ids -> chain_spec delta s from ids' -> hd_error ids = hd_error ids' -> ids = ids'.
 Proof. exact chain_unique. Qed.
 Print Assumptions C10_chain_is_unique.
+
+(* ---------------- proven checkers used to classify a disagreeing implementation output ---------------- *)
+(* chain clause as the property text states it: pairs link up; j is the first pose reaching delta since i;
+   the first pair starts no later than the first pose reaching delta from pose 0 (at pose 0 for rotations);
+   after the last pair delta is not reached again *)
+Theorem C10_chain_checker_sound :
+  forall (delta : R) (s : list R) (z0 : bool) (P : list (nat * nat)),
+  chain_text_b delta s z0 P = true ->
+  (forall k p q, nth_error P k = Some p -> nth_error P (S k) = Some q -> fst q = snd p) /\
+  (forall a b, In (a, b) P -> (a < b < length s)%nat /\ delta <= travelled s a b /\
+                              forall m, (a < m < b)%nat -> travelled s a m < delta) /\
+  (forall a0 b0 r, P = (a0, b0) :: r ->
+     if z0 then a0 = 0%nat else forall m, (m < a0)%nat -> travelled s 0 m < delta) /\
+  (P <> [] -> forall m, (snd (last P (0, 0)%nat) < m < length s)%nat -> travelled s (snd (last P (0, 0)%nat)) m < delta).
+Proof. exact chain_text_b_sound_flat. Qed.
+Print Assumptions C10_chain_checker_sound.
+
+Theorem C10_path_all_checker_sound :
+  forall (D : list R) (delta tol : R) (P : list (nat * nat)),
+  path_all_text_b D delta tol P = true ->
+  (forall i j, In (i, j) P -> (i < j < length D)%nat /\ miss D delta i j <= tol /\
+       forall k, (i < k < length D)%nat -> miss D delta i j <= miss D delta i k) /\
+  StronglySorted lt (map fst P) /\
+  (forall i k, (i < k < length D)%nat -> miss D delta i k <= tol -> exists j, In (i, j) P).
+Proof. exact path_all_text_b_sound_flat. Qed.
+Print Assumptions C10_path_all_checker_sound.
+
+(* the model's outputs satisfy those textual clauses (the checkers are not vacuous) *)
+Theorem C10_model_meets_textual_clauses :
+  (forall (ps : list (V3 R)) (delta tol : R),
+     chain_text delta (consec_steps ps) false (pairs_by_path ps delta tol false)) /\
+  (forall (das : list R) (delta : R), chain_text delta (0 :: das) true (angle_chain delta 0 0 0 das)) /\
+  (forall (ps : list (V3 R)) (delta tol : R),
+     path_all_text (acc_dists ps) delta tol (pairs_by_path ps delta tol true)).
+Proof. exact model_meets_text. Qed.
+Print Assumptions C10_model_meets_textual_clauses.
 
 (* non-vacuity: the model run in binary64 on evo's own test list (z = 0, 0.5, 1, 2.5, 3, 4) *)
 Theorem C10_float_examples :
